@@ -180,15 +180,54 @@ def run(ck):
     HANDLERS = {CONN + n_ for n_ in ("handleResponsePacket", "handleError", "handleTimeout", "close", "connect")}
     for name in ("handleResponsePacket", "handleError", "handleTimeout"):
         fn = lib.single(prog, CONN + name)
-        guards = [b for b in fn.blocks.values() if b.term and b.term.get("k") in ("if", "land", "while") and strip_tmpl((b.term.get("core") or {}).get("f") or "") == RE and not b.term.get("cmp")]
-        ck.require(guards, "`if (requestEntry)` not found in %s" % name)
-        gb = guards[0]
-        inside = gb.succs[1] if gb.term.get("neg") else gb.succs[0]
-        # all other accesses of requestEntry are reached only through the non-null edge of such a test (`if (requestEntry)`, or the left
-        # operand of `requestEntry && ...`)
-        gids = {g_.id for g_ in guards}
+        # edges on which requestEntry is known to be set: `if (requestEntry)`, `requestEntry != nullptr`, or a predicate member of the
+        # connection that returns one of the two (`bool hasPendingRequest() const { return requestEntry != nullptr; }`)
+        preds_ = {}
+        for g_ in prog.funcs.values():
+            if g_.cls == CONN.rstrip(":") and not g_.params and not g_.is_lambda:
+                rs_ = [x for x in g_.events("return")]
+                if len(rs_) == 1:
+                    tx_ = re.sub(r"\s+|this->", "", rs_[0].get("t") or "")
+                    if tx_ in ("requestEntry!=nullptr", "nullptr!=requestEntry", "static_cast<bool>(requestEntry)", "bool(requestEntry)", "requestEntry.operatorbool()", "!!requestEntry"):
+                        preds_[g_.base] = True
+                    elif tx_ in ("requestEntry==nullptr", "nullptr==requestEntry", "!requestEntry"):
+                        preds_[g_.base] = False
+        guards = []
+        for b in fn.blocks.values():
+            t_ = b.term
+            if not t_ or t_.get("k") not in ("if", "land", "lor", "while") or len(b.succs) != 2:
+                continue
+            truth = 1 if t_.get("neg") else 0
+            if strip_tmpl((t_.get("core") or {}).get("f") or "") == RE and not t_.get("cmp"):
+                guards.append((b, truth))
+            elif t_.get("cmp") in ("!=", "==") and strip_tmpl((t_.get("lhs") or {}).get("f") or "") == RE and (t_.get("rconst") == "nullptr" or "nullptr" in ((t_.get("rhs") or {}).get("t") or "")):
+                guards.append((b, truth if t_["cmp"] == "!=" else 1 - truth))
+            else:
+                for r_ in (t_.get("leafrefs") or t_.get("refs") or []):
+                    if r_.startswith("c:") and strip_tmpl(r_[2:]) in preds_ and not t_.get("cmp"):
+                        guards.append((b, truth if preds_[strip_tmpl(r_[2:])] else 1 - truth))
+        ck.require(guards, "no test of requestEntry (`if (requestEntry)`, `!= nullptr`, a predicate member) found in %s" % name)
+        gb = guards[0][0]
+        inside = gb.succs[guards[0][1]]
+        # all other accesses of requestEntry are reached only through the non-null edge of such a test
+        gids = {g_.id for g_, _k in guards}
+        # (the test itself may have been expanded from a predicate member: the straight-line blocks that lead into the testing block and
+        # come after the call of the predicate belong to the test)
+        for g_, _k in guards:
+            cur_ = g_
+            for _hop in range(6):
+                ps_ = [p_ for p_ in cur_.preds if len([x for x in fn.blocks[p_].succs if x is not None]) == 1]
+                if len(cur_.preds) != 1 or not ps_:
+                    break
+                cur_ = fn.blocks[ps_[0]]
+                if any(x["k"] == "call" and x.get("inlined") for x in cur_.elems):
+                    break
+                if all(x.get("k") in ("member", "call", "use", "cmp", "iret", "bind") for x in cur_.elems):
+                    gids.add(cur_.id)
+                else:
+                    break
         acc = [e for e in fn.events("member") if is_req_access(e) and e.block not in gids]
-        okg = all(any(cfg.edge_dominates(fn, g_.id, 1 if g_.term.get("neg") else 0, e) for g_ in guards) for e in acc) and bool(acc)
+        okg = all(any(cfg.edge_dominates(fn, g_.id, k_, e) for g_, k_ in guards) for e in acc) and bool(acc)
         ck.ob("C15-R3", "%s/guarded-by-requestEntry" % name, okg, "%s:%s" % (fn.file, gb.term.get("l")), fn, "%d accesses, all under `if (requestEntry)`" % len(acc))
 
         def settle(ev):
